@@ -258,6 +258,7 @@ def two_point_case(ctx, rng, quats, kinds, law_name, compliance, records, wheres
     system.add(law)
     assemble(system)
     n = 0
+    first = None
     for _ in range(nstates):
         t = max(s.t_eval for s in subs)
         st = [list(state_of(s, rng, quats)) for s in subs]
@@ -282,6 +283,8 @@ def two_point_case(ctx, rng, quats, kinds, law_name, compliance, records, wheres
         base.update(r=fv(r12), l=fr(l), v=fv(K[1]["v"] - K[0]["v"]),
                     J=[fv(sg[b] * K[b]["udirs"][j]["v"]) for b in range(2) for j in range(nus[b])])
         o, has_internal = element_outputs(tpi, law, law_name, compliance, t, q, u, ld, lac)
+        if first is None:
+            first = (o, (t, q.copy(), u.copy(), ld, lac), where)
         dirs = []
         for b in range(2):
             for kx in range(nqs[b]):
@@ -304,7 +307,24 @@ def two_point_case(ctx, rng, quats, kinds, law_name, compliance, records, wheres
         direction_records(base, o, has_internal, dirs, records, wheres, where, compliance)
         system_level(ctx, system, law, law_name, compliance, tpi, t, q, u, ld, lac, where)
         n += 1
+    repeat_first(ctx, tpi, law, law_name, compliance, first)
     return n
+
+
+def repeat_first(ctx, inter, law, law_name, compliance, first):
+    """history: after the other states the element is asked for the first state again and must report the same arrays, bit for bit"""
+    if first is None:
+        return
+    o1, (t, q, u, ld, lac), where = first
+    o2, _ = element_outputs(inter, law, law_name, compliance, t, q, u, ld, lac)
+    for k in o1:
+        if k == "l" and where["on"] == "Revolute":
+            continue        # the joint angle is history dependent by design (full-turn counter): C25
+        if not np.array_equal(np.asarray(o1[k]), np.asarray(o2[k])):
+            ctx.violation(f"{law_name}{'(c)' if compliance else ''}:{where['on']}:history:{k}",
+                          f"{k} evaluated again at the first state (after evaluations at other states) differs from its first evaluation "
+                          f"(max diff {np.max(np.abs(np.asarray(o1[k], dtype=float) - np.asarray(o2[k], dtype=float))):.3e}) at {where}", where)
+            return
 
 
 def revolute_case(ctx, rng, quats, kinds, law_name, compliance, records, wheres, nstates):
@@ -329,6 +349,7 @@ def revolute_case(ctx, rng, quats, kinds, law_name, compliance, records, wheres,
     assemble(system)
     ia, ib = joint.plane_axes
     n = 0
+    first = None
     for _ in range(nstates):
         t = max(s.t_eval for s in subs)
         for _try in range(50):
@@ -358,6 +379,8 @@ def revolute_case(ctx, rng, quats, kinds, law_name, compliance, records, wheres,
         base.update(l=fr(e), ea1=fv(K[0]["E"][:, ia]), eb1=fv(K[0]["E"][:, ib]), ec1=fv(K[0]["E"][:, axis]), ea2=fv(K[1]["E"][:, ia]),
                     v=fv(K[1]["O"] - K[0]["O"]), J=[fv(sg[b] * K[b]["udirs"][j]["O"]) for b in range(2) for j in range(nus[b])])
         o, has_internal = element_outputs(joint, law, law_name, compliance, t, q, u, ld, lac)
+        if first is None:
+            first = (o, (t, q.copy(), u.copy(), ld, lac), where, dict(l_ref=getattr(law, "l_ref", None), tau0=holder["tau0"]))
         dirs = []
         for b in range(2):
             for kx in range(nqs[b]):
@@ -384,6 +407,12 @@ def revolute_case(ctx, rng, quats, kinds, law_name, compliance, records, wheres,
         direction_records(base, o, has_internal, dirs, records, wheres, where, compliance)
         system_level(ctx, system, law, law_name, compliance, joint, t, q, u, ld, lac, where)
         n += 1
+    if first is not None:
+        # the reference the first state was evaluated with
+        if law_name in ("spring", "kv", "maxwell"):
+            law.l_ref = first[3]["l_ref"]
+        holder["tau0"] = first[3]["tau0"]
+        repeat_first(ctx, joint, law, law_name, compliance, first[:3])
     return n
 
 
@@ -506,8 +535,8 @@ def run(ctx):
     quats = quat_pool()
     records, wheres = [], {}
     counts = {}
-    nstates = 3 if ctx.thorough else 1
-    nrep = 8 if ctx.thorough else 2
+    nstates = 3 if ctx.thorough else 2        # every element object is evaluated at several states (at the same t), then at the first one again
+    nrep = 8 if ctx.thorough else 1
     for rep in range(nrep):
         # actuators are supported on Revolute joints only (on a TwoPointInteraction their shape conventions do not fit: outside the property's quantifier)
         for law_name, compliance in LAWS:
